@@ -1979,7 +1979,8 @@ fn parse_week_day_number(s: &[u8]) -> Result<(WeekDay, &[u8])> {
         ));
     }
 
-    let num = s[0] - b'0';
+    // `wrapping_sub`: any byte below b'0' (e.g. '-', '+', '/') must be rejected, not underflow.
+    let num = s[0].wrapping_sub(b'0');
     if (1..=7).contains(&num) {
         return Ok((WeekDay::from(num as usize), &s[1..]));
     }
